@@ -115,9 +115,11 @@ def rxMatch (rx : RxOracle) (p : Option RegexId) (s : Str) : Bool :=
   | none => false
 
 /-- a request as the router sees it: the variable context (`variable.GetString`, `none` = error/unset)
-and the header map (`headers.Get`) -/
+and the header map (`headers.Get`); `dsl` is the CEL-evaluation oracle for DSL rules -/
 structure Req where
   var : Str → Option Str
   hdr : Str → Option Str
+  /-- oracle: the value of the compiled DSL (CEL) expression `i` on this request (`none` = evaluation error) -/
+  dsl : Nat → Option Bool := fun _ => none
 
 end MosnVerif.Model.Route
